@@ -18,6 +18,7 @@ type treeOpts struct {
 	bindProb    int    // per cent chance that a contract has Aspects bound
 	aspectKind  string // noop | burn | mixed
 	journal     bool   // include journal opcodes (C10/C13/C16)
+	journalSome bool   // include them in one scenario in three (key registrations share the per-account root with the balance journal)
 	gasStable   bool   // no GAS opcode, constant call gas (C06.diff)
 	maxAspects  int
 	wide        bool // >= 8 children per key (C16 map-order amplification)
@@ -91,6 +92,9 @@ func journalChange(slot int) Macro {
 
 func genTreeScenario(seed uint64, o treeOpts) *Scenario {
 	r := NewRNG(seed)
+	if o.journalSome && (seed>>9)%3 == 0 {
+		o.journal = true
+	}
 	forks := []string{"Byzantium", "Constantinople", "Petersburg", "Istanbul", "Berlin", "London", "Merge", "Shanghai", "Cancun"}
 	sc := &Scenario{Prop: o.prop, Seed: seed, Fork: pick(r, forks), Block: genBlock(r), Tracer: "rec"}
 	n := 2 + r.Intn(3)
